@@ -37,6 +37,17 @@ def fmtOf (bpp : Nat) : Format :=
   else if bpp = 2 then ⟨31, 31, 31, 0, 5, 10⟩
   else ⟨255, 255, 255, 0, 8, 16⟩
 
+/-- the client pixel formats the scripts can name: (bytes per pixel, format); the harness sends the
+same numbers in a SetPixelFormat message (little-endian, true colour) -/
+def namedFmt (n : String) : Option (Nat × Format) :=
+  if n = "f8" then some (1, ⟨7, 7, 3, 0, 3, 6⟩)
+  else if n = "f8b" then some (1, ⟨7, 7, 3, 5, 2, 0⟩)
+  else if n = "f16" then some (2, ⟨31, 31, 31, 0, 5, 10⟩)
+  else if n = "f16b" then some (2, ⟨31, 63, 31, 11, 5, 0⟩)
+  else if n = "f32" then some (4, ⟨255, 255, 255, 0, 8, 16⟩)
+  else if n = "f32b" then some (4, ⟨255, 255, 255, 16, 8, 0⟩)
+  else none
+
 def insertSorted (x : Nat × ClientKind) : List (Nat × ClientKind) → List (Nat × ClientKind)
   | [] => [x]
   | y :: ys => if x.1 ≤ y.1 then x :: y :: ys else y :: insertSorted x ys
@@ -119,7 +130,7 @@ def obsLine (bpp : Nat) (o : UpdObs) : String :=
   if !o.res then head ++ " closed" else
   let sh := match o.shape with | some m => fmtShape m | none => "-"
   let ps := match o.pos with | some m => s!"{be16At m 0},{be16At m 2}" | none => "-"
-  head ++ s!" shape={sh} pos={ps} cov={hex16 (hashRgn o.upd)} pic={hex16 (hashPx bpp o.pic)}"
+  head ++ s!" shape={sh} pos={ps} cov={hex16 (hashRgn o.upd)} pic={hex16 (hashPx o.cbpp o.pic)}"
 
 def alive (s : Sess) (id : Nat) : Bool := s.clients.any (fun c => c.id == id)
 
@@ -147,12 +158,20 @@ def dstep (v : Variant) (st : DState) (toks : List String) : DState × List Stri
       | some s' => ({ st with sess := some s' }, ["ok"])
       | none => ({ st with oob := true }, ["model-oob"])
     | _, _, _, _, _ => (st, ["bad-op"])
-  | some s, ["client", id, kind] =>
-    match nat? id, (if kind = "raw" then some ClientKind.raw else if kind = "x" then some .x else if kind = "rich" then some .rich else none) with
-    | some id, some k =>
+  | some s, "client" :: id :: kind :: rest =>
+    let tf : Option (Option (Format × Nat)) :=
+      match rest with
+      | [] => some none
+      | [n] =>
+        match namedFmt n with
+        | some (b, f) => if b == s.scr.bpp && f == s.scr.fmt then some none else some (some (f, b))   -- PF_EQ: rfbTranslateNone
+        | none => none
+      | _ => none
+    match nat? id, (if kind = "raw" then some ClientKind.raw else if kind = "x" then some .x else if kind = "rich" then some .rich else none), tf with
+    | some id, some k, some tf =>
       if id ≥ 4 || st.used.any (fun u => u.1 == id) then (st, ["bad-op"]) else
-      ({ st with sess := some (newClient s id k), used := insertSorted (id, k) st.used }, ["ok"])
-    | _, _ => (st, ["bad-op"])
+      ({ st with sess := some (newClient s id k tf), used := insertSorted (id, k) st.used }, ["ok"])
+    | _, _, _ => (st, ["bad-op"])
   | some s, ["ptr", id, x, y, m] =>
     match nat? id, nat? x, nat? y, nat? m with
     | some id, some x, some y, some m =>
